@@ -2368,6 +2368,30 @@ impl Monitors {
         for (t, w, _) in &snap.redirects {
             refs.push((*t, format!("redirect to w{w}")));
         }
+        // a task is linked as consumer only from tasks that exist and that it depends on
+        // (a stale link is followed when the input ends: an unrelated task is hit, C03)
+        for t in &snap.tasks {
+            for c in &t.consumers {
+                match snap.tasks.iter().find(|x| x.id == *c) {
+                    None => obs.alarm(
+                        "C03",
+                        step,
+                        "task is linked to a consumer that no longer exists",
+                        format!("{} lists consumer {c}", t.id),
+                    ),
+                    Some(ct) => {
+                        if !ct.deps.contains(&t.id) {
+                            obs.alarm(
+                                "C03",
+                                step,
+                                "task is linked to a consumer that does not depend on it",
+                                format!("{} lists consumer {c} whose dependencies are {:?}", t.id, ct.deps),
+                            );
+                        }
+                    }
+                }
+            }
+        }
         // dependency bookkeeping: the scheduler's list is the submitted one, and the counter of
         // a waiting task is the number of its dependencies that are still unfinished
         for t in &snap.tasks {
